@@ -441,6 +441,37 @@ def gen_C05(tier, rng):
             ins.append(("leaf", False, f, int_vals(prod(f), rng, -50, 50)))
             ins.append(("op", ("matmul", ta, tb), [0, 1, 2]))
         cases.append(case("mm_large", ins, "large"))
+    # structured zeros: whole stored rows, whole stored columns and single entries zeroed (dead units, padding):
+    # a product must not depend on WHERE the zeros sit in memory, whatever the transposition flags
+    for k2 in range(160 if tier == "quick" else 2400):
+        rows, inner, cols = rng.randint(1, 4), rng.randint(1, 4), rng.randint(1, 4)
+        ta, tb = bool(k2 & 1), bool(k2 & 2)
+        lead2 = rng.choice([[], [], [2], [1, 2]])
+        da = lead2 + mat_dims(rows, inner, ta)
+        db = rng.choice([[], lead2]) + mat_dims(inner, cols, tb)
+
+        def sparse(dims):
+            v = [float(rng.choice([-3, -2, -1, 1, 2, 3, 4])) for _ in range(prod(dims))]
+            r_, c_ = dims[-2], dims[-1]
+            for blk in range(prod(dims) // (r_ * c_)):
+                base = blk * r_ * c_
+                for i in range(r_):
+                    if rng.random() < 0.35:
+                        for j in range(c_):
+                            v[base + i * c_ + j] = 0.0
+                for j in range(c_):
+                    if rng.random() < 0.2:
+                        for i in range(r_):
+                            v[base + i * c_ + j] = 0.0
+            return v
+        ins = [("leaf", False, da, sparse(da)), ("leaf", False, db, sparse(db))]
+        f = rng.choice(bias_forms(rows, cols))
+        if f is None:
+            ins.append(("op", ("matmul", ta, tb), [0, 1]))
+        else:
+            ins.append(("leaf", False, f, int_vals(prod(f), rng, 10, 50)))
+            ins.append(("op", ("matmul", ta, tb), [0, 1, 2]))
+        cases.append(case("mm_sparse", ins, "structured_zeros"))
     count = 150 if tier == "quick" else 3000
     for _ in range(count):
         rows, inner, cols = (rng.randint(1, 5) for _ in range(3))
@@ -470,8 +501,9 @@ PROPS["C05"] = {
             "[1,cols],[1]} (quick: one third of the grid with one additive-term form per case, rotating; thorough: "
             "the full grid), the rank-1 forms (vector left/right of a rank>=2 operand with every flag pair, dot "
             "product), the refusal stream (mismatching inner dimension, dot product of different lengths) and "
-            "seeded random float cases with sizes up to 5; integer data compared exactly; distinct = distinct "
-            "program text",
+            "seeded random float cases with sizes up to 5; larger sizes (inner dimension up to 19); operands with "
+            "structured zeros (whole stored rows / columns zeroed) under every flag pair; integer data compared exactly; "
+            "distinct = distinct program text",
     "exhaustive": {"quick": False, "thorough": True},
     "assumptions": ["pairs of rank-1 operands with a transposition flag are outside the property and not generated"],
 }
@@ -518,6 +550,31 @@ def gen_C06(tier, rng):
         cases.append(conv_case(rng, rng.choice([[], [3], [2, 3], [1, 2]]), rng.randint(1, 5), rng.randint(1, 5),
                                rows, cols, fr, fc, rng.randint(1, 6), rng.randint(1, 6)))
         cases[-1]["cls"] = "large:" + cases[-1]["cls"]
+    # several convolutions of ONE image in one program, with geometries that agree in everything a careless cache
+    # key might hold (image size, number of windows, filter area) but differ in orientation; and zero-padded images
+    # / filters with zero rows (no result may depend on where zeros sit)
+    for k2 in range(60 if tier == "quick" else 800):
+        n = rng.randint(2, 6)
+        depth = rng.randint(1, 2)
+        di = rng.choice([[], [2]]) + [depth, n, n]
+        iv = [float(rng.randint(-4, 4)) for _ in range(prod(di))]
+        if k2 % 3 == 0:                       # zero border
+            for i in range(prod(di)):
+                r_, c_ = (i // n) % n, i % n
+                if r_ in (0, n - 1) or c_ in (0, n - 1):
+                    iv[i] = 0.0
+        ins = [("leaf", False, di, iv)]
+        a, b2 = rng.randint(1, min(3, n)), rng.randint(1, min(3, n))
+        s1, s2 = rng.randint(1, 3), rng.randint(1, 3)
+        for (fr, fc, sr, sc) in [(a, b2, s1, s2), (b2, a, s2, s1), (a, b2, s2, s1), (1, 1, s1, s1), (1, 1, s2, s2)]:
+            df = [rng.randint(1, 2), depth, fr, fc]
+            fv = [float(rng.randint(-3, 3)) for _ in range(prod(df))]
+            if rng.random() < 0.3:
+                for i in range(fc):
+                    fv[i] = 0.0
+            ins.append(("leaf", False, df, fv))
+            ins.append(("op", ("conv", sr, sc), [0, len(ins) - 1]))
+        cases.append(case("conv_multi", ins, "several_geometries_one_image"))
     for _ in range(60 if tier == "quick" else 1500):
         rows, cols = rng.randint(1, 7), rng.randint(1, 7)
         fr, fc = rng.randint(1, min(3, rows)), rng.randint(1, min(3, cols))
@@ -530,7 +587,9 @@ def gen_C06(tier, rng):
 PROPS["C06"] = {
     "gen": gen_C06,
     "rule": "image rows, cols in 1..5, filter rows, cols in 1..3 (not larger than the image), both strides in 1..3 "
-            "independently, depth in {1,2}, filter count in {1,2}, batch in {absent,[1],[2],[2,2]}: thorough = the "
+            "independently, depth in {1,2}, filter count in {1,2}, batch in {absent,[1],[2],[2,2]} (plus larger geometry "
+            "up to 13x14, stride 6; programs with five convolutions of one image whose geometries agree in image size, "
+            "window count and filter area but differ in orientation; zero-padded images and filters with zero rows): thorough = the "
             "whole grid, quick = the sub-grid with image <= 3x3, strides <= 2, batch != [2,2] plus 600 seeded samples "
             "of the rest; integer data compared exactly, plus seeded random float cases up to 7x7; distinct = "
             "distinct program text",
@@ -624,6 +683,20 @@ def gen_C07(tier, rng):
         if tr:
             ins += [("backward", 1, None), ("grad", 0)]
         cases.append(case("saturated", ins, "extreme_values:saturation", rtol=1e-6))
+    # tiny magnitudes (1e-300 .. 1e-17): the maps that neither cancel nor saturate, compared with a tolerance
+    # relative to each value (the usual floor of 1 would accept any answer)
+    for k in range(30 if tier == "quick" else 300):
+        n = rng.randint(1, 5)
+        xs = [rng.choice([1e-17, 3e-17, 1e-20, 1e-100, 1e-300]) * rng.uniform(1, 9) * rng.choice([-1.0, 1.0])
+              for _ in range(n)]
+        pos = [abs(x) for x in xs]
+        ins = [("leaf", k % 2 == 1, [n], xs), ("op", ("relu",), [0]), ("op", ("neg",), [0]), ("op", ("scale", 3.0), [0]),
+               ("leaf", False, [n], pos), ("op", ("powf", 0.5), [4]), ("op", ("sum", 1), [4]), ("op", ("ln",), [4])]
+        if k % 2 == 1:
+            ins += [("backward", 1, None), ("grad", 0)]
+        c = case("tiny", ins, "extreme_values:tiny_magnitudes", rtol=1e-9)
+        c["pure_rel"] = True
+        cases.append(c)
     # whole-valued exponents far beyond any table: parity decides the sign for a negative base
     for e in (4294967296.0, 4294967297.0, -4294967296.0, 2147483648.0, 2147483649.0, 1e300, 9007199254740993.0,
               65536.0, 65537.0):
@@ -810,6 +883,35 @@ def gen_C01(tier, rng):
         if mag < 2 ** 50:
             c = graph_case("readme", b, root, None, "control_flow")
             cases.append(add_tangents(c, rng))
+    # (v) one array reaching an operation twice under different shapes: reshaped views share the buffer of their
+    # source, clones share the node; products, quotients and matrix products of an array with a view of itself
+    for n in (2, 3, 4):
+        for kind in ("mul", "add", "sub", "div", "matmul", "mul_clone", "mul_same", "mul_row"):
+            for order in (0, 1):
+                b = randprog.Builder(rng, exact=kind != "div")
+                x = b.leaf([n], tracked=True, values=[float(i + 1) for i in range(n)])
+                if kind in ("mul_clone", "mul_same"):
+                    y = x
+                    if kind == "mul_clone":
+                        b.emit(("clone", x.idx))
+                        y = randprog.Var(len(b.ins) - 1, [n], True, True, True, 1.0)
+                        b.vars[y.idx] = y
+                    out = [n]
+                    z = b.result(("mul",), [x, y], out, False, True, 0)
+                elif kind == "matmul":
+                    col = b.result(("reshape", [n, 1]), [x], [n, 1], False, True, 0)
+                    row = b.result(("reshape", [1, n]), [x], [1, n], False, True, 0)
+                    out = [n, n] if order == 0 else [1, 1]
+                    z = b.result(("matmul", False, False), [col, row] if order == 0 else [row, col], out, False, True, 0)
+                else:
+                    shape = [1, n] if kind == "mul_row" else [n, 1]
+                    v = b.result(("reshape", shape), [x], shape, False, True, 0)
+                    out = [n, n] if shape == [n, 1] else [1, n]
+                    k = "mul" if kind == "mul_row" else kind
+                    z = b.result((k,), [v, x] if order == 0 else [x, v], out, False, kind != "div", 0)
+                c = graph_case("selfview", b, z, b.seed_for(z, "int"), "one_array_twice:%s" % kind,
+                               **({} if kind != "div" else {"rtol": 1e-9}))
+                cases.append(add_tangents(c, rng, exact=kind != "div"))
     # (vi) wide fan-out (one array with many consumers), long chains and graphs with many nodes
     for fan in ((9, 17, 40) if tier == "quick" else (9, 12, 17, 33, 40, 64, 100)):
         b = randprog.Builder(rng, exact=True)
@@ -853,7 +955,9 @@ PROPS["C01"] = {
             "tracked and untracked leaves), 4-node wirings (all 14400 in the thorough tier, 1200 sampled in quick), "
             "seeded random programs of 1-12 operations over every operation with broadcasting operands (integer data: "
             "exact; float data: rtol 1e-7), the README data-dependent loop for six parameter sets, chains of "
-            "self-sums of depth 10-30; leaf gradients after backward(seed or none) are compared with the model and, "
+            "self-sums of depth 10-30, fan-out up to 40/100, chains up to 260/400, one array reaching an operation twice "
+            "under different shapes (reshaped views, clones, the same handle; products, quotients, matrix products); leaf "
+            "gradients after backward(seed or none) are compared with the model and, "
             "independently, as a directional derivative with the model's dual-number evaluation; distinct = distinct "
             "program text",
     "exhaustive": {"quick": False, "thorough": False},
@@ -1754,6 +1858,30 @@ def gen_C09(tier, rng):
                 ins += [("backward", r, None)] + [("grad", a) for a in args] + [("obs", a) for a in args] + [("obs", r)]
                 ins += [("backward", r, None)] + [("grad", a) for a in args]
                 cases.append(case("late_off", ins, "operand_switched_off_after_recording:%s" % op[0], rtol=1e-9))
+    # convolution under every tracking mask and geometry class: filter smaller than, as wide/high as, and exactly
+    # covering the image (the "dense head" shape), batched or not; then the same through a second convolution so that
+    # the first one's result is the tracked image of the second
+    for (ir, ic, fr, fc, sr, sc) in [(2, 2, 2, 2, 1, 1), (3, 3, 2, 2, 1, 1), (2, 3, 2, 3, 1, 1), (3, 3, 3, 3, 2, 2),
+                                     (3, 2, 1, 2, 1, 1), (2, 3, 2, 1, 1, 2), (1, 1, 1, 1, 1, 1), (4, 4, 2, 2, 2, 2)]:
+        for depth, count in ((1, 1), (2, 2)):
+            for batch in ([], [2]):
+                for mask in itertools.product((False, True), repeat=2):
+                    di = batch + [depth, ir, ic]
+                    df = [count, depth, fr, fc]
+                    ins = [("leaf", mask[0], di, [float((3 * i) % 5 - 1) for i in range(prod(di))]),
+                           ("leaf", mask[1], df, [float((2 * i) % 3 + 1) for i in range(prod(df))]),
+                           ("op", ("conv", sr, sc), [0, 1]), ("obs", 2)]
+                    if mask[0] or mask[1]:
+                        ins += [("backward", 2, None), ("grad", 0), ("grad", 1)]
+                    # a second, untracked 1x1 filter on top: tracked iff the first result is
+                    ins += [("leaf", False, [1, count, 1, 1], [2.0] * count), ("op", ("conv", 1, 1), [2, len(ins)]),
+                            ]
+                    r2 = len(ins) - 1
+                    ins.append(("obs", r2))
+                    if mask[0] or mask[1]:
+                        ins += [("backward", r2, None), ("grad", 0), ("grad", 1)]
+                    cases.append(case("conv_mask", ins, "conv_tracking:%s" % (
+                        "full_cover" if (fr, fc) == (ir, ic) else "partial")))
     # only the additive term of matmul tracked
     for shape_c in ([2], [2, 2], [1, 2], [1]):
         for mask in itertools.product((False, True), repeat=3):
@@ -1974,6 +2102,43 @@ def gen_C18(tier, rng):
         c["takes"] = takes
         c["adjudicate"] = takes
         cases.append(c)
+    # every operation, systematically: tracked leaves, the operation (also on an intermediate that depends on
+    # both leaves, e.g. (w*s)/s), one or two passes, the gradients LEFT on the leaves, every result dropped,
+    # then Vec::from on every leaf
+    un = [("neg",), ("scale", 2.0), ("powf", 2.0), ("powf", 0.5), ("ln",), ("exp",), ("recip",), ("relu",),
+          ("sigmoid",), ("softmax",), ("sum", 1), ("sum", 0), ("reshape", [4])]
+    bi = [("add",), ("sub",), ("mul",), ("div",), ("axpy", 0.5), ("matmul", False, False), ("matmul", True, False),
+          ("matmul", False, True), ("matmul", True, True)]
+    for op in un + bi:
+        for inner in (False, True):
+            for passes in (1, 2):
+                for dims2 in ([2, 2], [1, 2], [2]):
+                    binary = op in bi
+                    if not binary and dims2 != [2, 2]:
+                        continue
+                    if op[0] == "matmul" and dims2 != [2, 2]:
+                        continue
+                    ins = [("leaf", True, [2, 2], [1.0, 2.0, 3.0, 4.0])]
+                    if binary or inner:
+                        ins.append(("leaf", True, dims2, [2.0, 1.0, 1.5, 3.0][:prod(dims2)]))
+                    a0 = 0
+                    if inner:
+                        ins.append(("op", ("mul",), [0, 1]))
+                        a0 = len(ins) - 1
+                    ins.append(("op", op, [a0, 1] if binary else [a0]))
+                    r = len(ins) - 1
+                    for _ in range(passes):
+                        ins.append(("backward", r, None))
+                    nl = 2 if (binary or inner) else 1
+                    ins += [("drop", j) for j in range(nl, r + 1)]
+                    takes = []
+                    for j in (range(nl) if (len(cases) % 2) else reversed(range(nl))):
+                        ins.append(("takevec", j))
+                        takes.append(len(ins) - 1)
+                    c = case("release_op", ins, "release_every_operation:%s" % op[0], rtol=1e-9)
+                    c["takes"] = takes
+                    c["adjudicate"] = takes
+                    cases.append(c)
     # the training loop: batches of finished iterations and validation batches of forward-only passes must be
     # sole owners again once the model has moved on
     for _ in range(80 if tier == "quick" else 1000):
@@ -2014,8 +2179,10 @@ PROPS["C18"] = {
             "passes / a pass followed by fetching gradients; every handle other than the original leaf handles is "
             "dropped in random order and Vec::<Float>::from is called on every leaf (must succeed, with and without "
             "stored gradients); model programs: after the next forward the previous iteration's input is sole owner of "
-            "its buffer; compared with the model's ownership count and adjudicated directly (no panic); distinct = "
-            "distinct program text",
+            "its buffer; for every operation (unary, binary, the four matmul flag pairs), on leaves and on an "
+            "intermediate depending on both leaves: one or two passes, gradients left on the leaves, results dropped, "
+            "Vec::from on every leaf; compared with the model's ownership count and adjudicated directly (no panic); "
+            "distinct = distinct program text",
     "exhaustive": {"quick": False, "thorough": False},
     "assumptions": ["what the allocator frees and leaks that bypass Rc (mem::forget) are not observable here"],
     "post": ["released"],
@@ -2415,6 +2582,14 @@ def model_case(rng, tier):
         bi = len(ins) - 1
         if double:
             ins.append(("mbackward", ti))
+        if rng.random() < 0.15 and not huge:
+            # a validation forward BETWEEN backward and update: the model's stored output is replaced, the
+            # gradients waiting on the parameters must still be applied by the update
+            vb = rng.choice(batches) if vary else fixed
+            vd = vb + feat
+            ins.append(("leaf", False, vd, [rng.uniform(-1, 1) for _ in range(prod(vd))]))
+            ins.append(("forward", len(ins) - 1))
+            ins.append(("drop", len(ins) - 1))
         ins.append(("mupdate",))
         ins.append(("params",))
         pi = len(ins) - 1
@@ -2820,6 +2995,26 @@ def gen_C19(tier, rng):
                 continue
             c["cls"] = "%s:%s" % (pid, c.get("cls", ""))
             cases.append(round_case_f32(c))
+    # tiny magnitudes (1e-25 .. 1e-6, normal binary32 numbers): operations without cancellation, compared with a
+    # tolerance RELATIVE to each value (an absolute tolerance would accept any answer here); relu's mask included
+    for k in range(80 if tier == "quick" else 1000):
+        n = rng.randint(1, 5)
+        def tiny(sign=True):
+            m = rng.choice([1e-6, 1e-7, 4e-8, 1e-8, 1e-10, 1e-15, 1e-25]) * rng.uniform(1, 9)
+            return m * (rng.choice([-1.0, 1.0]) if sign else 1.0)
+        xs = [f32(tiny()) for _ in range(n)]
+        pos = [f32(tiny(False)) for _ in range(n)]
+        ws = [f32(rng.uniform(1, 9)) for _ in range(n)]
+        ins = [("leaf", True, [n], xs), ("op", ("relu",), [0]), ("op", ("neg",), [0]), ("op", ("scale", 3.0), [0]),
+               ("leaf", False, [n], ws), ("op", ("mul",), [0, 4]), ("op", ("div",), [0, 4]),
+               ("leaf", False, [n], pos), ("op", ("sum", 1), [7]), ("op", ("powf", 0.5), [7]), ("op", ("recip",), [7]),
+               ("leaf", False, [n, 2], [f32(rng.uniform(1, 9)) for _ in range(2 * n)]),
+               ("op", ("matmul", False, False), [7, 11]),
+               ("backward", 1, None), ("grad", 0)]
+        c = case("tiny", ins, "tiny_magnitudes")
+        c["rtol"] = 2e-5
+        c["pure_rel"] = True
+        cases.append(c)
     return cases
 
 
